@@ -640,6 +640,217 @@ def exact_run_oracle(c, im):
 
 
 # ==========================================================================================
+# calling conventions, histories on one object, several objects alive: the same numbers handed over in
+# another way (integer dtype, Python numbers, list / tuple, numpy scalars, 0-d arrays; positional / keyword /
+# omitted optional arguments; a solver object used before; two solver objects configured differently) must
+# give the documented steps.  Oracle: N documented steps (doc_step) from the float values.
+REPRS_FLAT = ['float_array', 'int_array', 'list_int', 'list_float', 'tuple_int']
+REPRS_PARTS = ['float_array', 'int_array', 'py_int', 'py_float', 'np_int_scalar', 'np_float_scalar', 'zero_d_int', 'zero_d_float']
+CORE_REPRS = {'float_array', 'int_array', 'py_int', 'py_float', 'list_int', 'list_float'}     # an exception here is reported
+
+
+def gen_convention_case(rng, which, sub):
+    n = int(rng.integers(1, 4))
+    c = {'kind': 'convention', 'sub': sub, 'iterator': which, 'n': n,
+         't': float(rng.integers(-8, 9)) / 4.0, 'h': float(rng.choice([0.25, 0.125, 0.0625])), 'N': int(rng.integers(1, 6)),
+         'x': [float(v) for v in rng.integers(-3, 4, n)],                      # whole numbers: exact in every representation
+         'a': [float(v) for v in rng.uniform(-1, 1, n)], 'b': [float(v) for v in rng.uniform(-1, 1, n)]}
+    if sub == 'repr':
+        c['path'] = str(rng.choice(['direct', 'desolver', 'solver']))
+        c['repr'] = str(rng.choice(REPRS_PARTS if c['path'] == 'solver' else REPRS_FLAT))
+    elif sub == 'kwargs':
+        c['path'] = str(rng.choice(['direct', 'solver', 'desolver']))
+        c['style'] = str(rng.choice(['keyword', 'positional', 'omitted']))
+    else:
+        c['path'] = 'desolver'
+    return c
+
+
+def _flat_repr(x, r):
+    ints = [int(v) for v in x]
+    return {'float_array': lambda: np.array(x, dtype=float), 'int_array': lambda: np.array(ints, dtype=np.int64),
+            'list_int': lambda: list(ints), 'list_float': lambda: [float(v) for v in x], 'tuple_int': lambda: tuple(ints)}[r]()
+
+
+def _part_repr(v, r):
+    return {'float_array': lambda: np.array([v], dtype=float), 'int_array': lambda: np.array([int(v)], dtype=np.int64),
+            'py_int': lambda: int(v), 'py_float': lambda: float(v), 'np_int_scalar': lambda: np.int64(int(v)),
+            'np_float_scalar': lambda: np.float64(v), 'zero_d_int': lambda: np.array(int(v)), 'zero_d_float': lambda: np.array(float(v))}[r]()
+
+
+def _same_object_state(before, after):
+    try:
+        return repr(before) == repr(after)
+    except Exception:
+        return True
+
+
+def _desolver_run(which, f, t, X0, h, N, ctor_kw=None, solver=None):
+    """N steps of size h through a bare DESolver (public API); returns (final state, solver)"""
+    _, So, _ = impl()
+    s = solver if solver is not None else So.DESolver(solver_type(which), **(ctor_kw or {}))
+    if solver is not None:
+        s.setIterator(solver_type(which))
+    s.setdXdtFunctions(lambda tt, xx: np.asarray(f(tt, np.asarray(xx, dtype=float)), dtype=float), s.correctdXdtNotImplemented, lambda d: h,
+                       s.flattenXNotImplemented, s.unflattenXNotImplemented)
+    rec = []
+    s.setFunctions(postProcess=lambda tt, xx: (rec.append((tt, np.array(xx, dtype=float).copy())) or (xx, False)))
+    s.solve(t, X0, t + N * h)
+    return (rec[-1][1] if rec else None), len(rec), s
+
+
+def run_convention(c):
+    """returns dict(results=[(label, final state or None, steps)], expected, err, unchanged)"""
+    It, So, GenericModel = impl()
+    which = c['iterator']
+    f = smooth_rhs(c)
+    t, h, N, n = c['t'], c['h'], c['N'], c['n']
+    x = np.array(c['x'], dtype=float)
+    exp = x.copy()
+    tt = t
+    for _ in range(N):
+        exp = np.array(doc_step(which, f, tt, exp, h)[0])
+        tt += h
+    out = {'expected': exp, 'results': [], 'err': None, 'unchanged': True}
+    F = lambda tt_, xx, getDt=False: ((np.asarray(f(tt_, np.asarray(xx, dtype=float)), dtype=float), h) if getDt
+                                      else np.asarray(f(tt_, np.asarray(xx, dtype=float)), dtype=float))
+    upd = lambda a, k, dt: a + k * dt
+
+    def model(parts, steps_h):
+        class M(GenericModel):
+            def __init__(self):
+                self.t, self.parts, self.n = t, parts, 0
+            def getCurrentX(self):
+                return self.t, self.parts
+            def getdXdt(self, tt_, xs):
+                d = np.asarray(f(tt_, np.hstack([np.ravel(np.asarray(v, dtype=float)) for v in xs])), dtype=float)
+                return [d[i:i + 1].copy() if np.ndim(p) == 1 else float(d[i]) for i, p in enumerate(parts)]
+            def getDt(self, dXdt):
+                return steps_h
+            def postProcess(self, time, xs):
+                self.t, self.last, self.n = time, xs, self.n + 1
+                return xs, False
+        return M()
+    try:
+        sub = c['sub']
+        if sub == 'repr':
+            if c['path'] == 'direct':
+                X = _flat_repr(c['x'], c['repr'])
+                keep = repr(X)
+                cur, tcur = X, t
+                for _ in range(N):
+                    cur, dt = iterator_of(which)(F, tcur, cur, upd)
+                    tcur += dt
+                out['unchanged'] = repr(X) == keep
+                out['results'].append((c['repr'], np.asarray(cur, dtype=float), N))
+            elif c['path'] == 'desolver':
+                X = _flat_repr(c['x'], c['repr'])
+                keep = repr(X)
+                y, steps, _ = _desolver_run(which, f, t, X, h, N)
+                out['unchanged'] = repr(X) == keep
+                out['results'].append((c['repr'], y, steps))
+            else:
+                parts = [_part_repr(v, c['repr']) for v in c['x']]
+                keep = repr(parts)
+                m = model(parts, h)
+                m.solve(N * h, solverType=solver_type(which))
+                out['unchanged'] = repr(parts) == keep
+                out['results'].append((c['repr'], np.hstack([np.ravel(np.asarray(v, dtype=float)) for v in m.last]), m.n))
+        elif sub == 'kwargs':
+            st = c['style']
+            if c['path'] == 'direct':
+                it = iterator_of(which)
+                cur, tcur = x.copy(), t
+                for _ in range(N):
+                    cur, dt = (it(f=F, t=tcur, X_old=cur, updateX=upd) if st == 'keyword' else it(F, tcur, cur, upd))
+                    tcur += dt
+                out['results'].append((st, np.asarray(cur, dtype=float), N))
+            elif c['path'] == 'solver':
+                m = model([x[i:i + 1].copy() for i in range(n)], h)
+                if st == 'keyword':
+                    m.solve(simTime=N * h, solverType=solver_type(which), verbose=False, vIt=10, minDtFrac=1e-8, maxDtFrac=1)
+                elif st == 'positional':
+                    m.solve(N * h, solver_type(which), False, 10, 1e-8, 1)
+                else:
+                    if which == 'RK4':
+                        m.solve(N * h)                                     # RK4 is the documented default
+                    else:
+                        m.solve(N * h, solver_type(which))
+                out['results'].append((st, np.hstack(m.last).astype(float), m.n))
+            else:
+                kw = {'keyword': dict(iterator=solver_type(which), defaultDT=0.1, minDtFrac=1e-8, maxDtFrac=1)}.get(st)
+                if st == 'keyword':
+                    s = So.DESolver(**kw)
+                elif st == 'positional':
+                    s = So.DESolver(solver_type(which), 0.1, 1e-8, 1)
+                else:
+                    s = So.DESolver() if which == 'RK4' else So.DESolver(solver_type(which))
+                y, steps, _ = _desolver_run(which, f, t, x.copy(), h, N, solver=s)
+                out['results'].append((st, y, steps))
+        elif sub == 'reuse':
+            # one solver object: a run with the OTHER scheme and other step first, then this one; the state object is re-used
+            other = 'Euler' if which == 'RK4' else 'RK4'
+            X = x.copy()
+            _, _, s = _desolver_run(other, lambda tt_, xx: -np.asarray(xx, dtype=float), t + 1.0, X, 2 * h, 2)
+            y1, st1, _ = _desolver_run(which, f, t, X, h, N, solver=s)
+            y2, st2, _ = _desolver_run(which, f, t, X, h, N, solver=s)
+            out['unchanged'] = bool(np.array_equal(X, x))
+            out['results'] += [('after a run with the other scheme', y1, st1), ('same call repeated', y2, st2)]
+        elif sub == 'interleave':
+            # two solver objects alive, configured differently, set up first and run afterwards
+            other = 'Euler' if which == 'RK4' else 'RK4'
+            sA = So.DESolver(solver_type(which), minDtFrac=1e-8, maxDtFrac=1)
+            sB = So.DESolver(solver_type(other), minDtFrac=1e-3, maxDtFrac=0.5)
+            g = lambda tt_, xx: 0.5 * np.asarray(xx, dtype=float) + tt_
+            expB = x.copy()
+            tb = t
+            for _ in range(N):
+                expB = np.array(doc_step(other, g, tb, expB, h / 2)[0])
+                tb += h / 2
+            recA, recB = [], []
+            sA.setdXdtFunctions(lambda tt_, xx: np.asarray(f(tt_, xx), dtype=float), sA.correctdXdtNotImplemented, lambda d: h, sA.flattenXNotImplemented, sA.unflattenXNotImplemented)
+            sB.setdXdtFunctions(lambda tt_, xx: np.asarray(g(tt_, xx), dtype=float), sB.correctdXdtNotImplemented, lambda d: h / 2, sB.flattenXNotImplemented, sB.unflattenXNotImplemented)
+            sA.setFunctions(postProcess=lambda tt_, xx: (recA.append(np.array(xx, dtype=float)) or (xx, False)))
+            sB.setFunctions(postProcess=lambda tt_, xx: (recB.append(np.array(xx, dtype=float)) or (xx, False)))
+            sB.solve(t, x.copy(), t + N * h / 2)
+            sA.solve(t, x.copy(), t + N * h)
+            out['results'].append(('first of two solvers (the other one ran in between)', recA[-1] if recA else None, len(recA)))
+            out['extra'] = ('second of two solvers', recB[-1] if recB else None, len(recB), expB)
+    except Exception as e:
+        out['err'] = type(e).__name__ + ': ' + str(e)
+    return out
+
+
+def convention_oracle(c, im):
+    which = c['iterator']
+    site = 'RK4Iterator' if which == 'RK4' else 'ExplicitEulerIterator'
+    via = {'direct': 'called directly', 'solver': 'through GenericModel.solve', 'desolver': 'through DESolver.solve'}[c['path']]
+    what = {'repr': 'state given as %s' % c.get('repr'), 'kwargs': 'arguments passed %s' % c.get('style'),
+            'reuse': 'solver object used before', 'interleave': 'two solver objects alive'}[c['sub']]
+    if im['err']:
+        if c['sub'] == 'repr' and c['repr'] not in CORE_REPRS:
+            return []          # a representation the interface does not promise to accept
+        return [('no_internal_error', 'calling convention: ' + c['sub'], '%s %s, %s, initial state %r: raised %s' % (site, via, what, c['x'], im['err']))]
+    v = []
+    checks = [(lab, y, steps, im['expected']) for lab, y, steps in im['results']]
+    if 'extra' in im:
+        lab, y, steps, e2 = im['extra']
+        checks.append((lab, y, steps, e2))
+    for lab, y, steps, exp in checks:
+        if y is None or steps != c['N']:
+            continue           # how many steps are taken is the time contract's subject
+        y = np.ravel(np.asarray(y, dtype=float))
+        if y.shape != exp.shape or np.max(np.abs(y - exp)) > 1e-12 * (1 + np.max(np.abs(exp))):
+            v.append(('calling_convention', c['sub'] + (': ' + ('integer-typed state' if 'int' in c.get('repr', '') else 'other representation') if c['sub'] == 'repr' else ''),
+                      '%s %s, %s (%s): %d steps of size %r from t=%r, state %r give %r; the documented steps from the same numbers give %r'
+                      % (site, via, what, lab, c['N'], c['h'], c['t'], c['x'], [float(z) for z in y], [float(z) for z in exp])))
+            break
+    if not im.get('unchanged', True):
+        v.append(('state_unchanged', 'argument object modified', '%s %s, %s: the object holding the initial state was modified' % (site, via, what)))
+    return v
+
+
+# ==========================================================================================
 # translator validation: generated text executed on exact rationals vs the Python functions
 def gen_corr_case(rng, idx):
     which = int(rng.integers(0, 4))
@@ -832,6 +1043,8 @@ def evaluate_case(c):
         return order_oracle(c['iterator'], c['path'], c['system'], c['params'], res)
     if k == 'exact_run':
         return exact_run_oracle(c, run_exact_run(c))
+    if k == 'convention':
+        return convention_oracle(c, run_convention(c))
     raise ValueError('unknown case kind %r' % k)
 
 
@@ -880,6 +1093,13 @@ def _shrinks(c):
         d = dict(c)
         d.update(t=0.0, dt=1.0)
         yield d
+    if c['kind'] == 'convention':
+        d = dict(c)
+        d.update(n=1, x=c['x'][:1], a=c['a'][:1], b=c['b'][:1], N=1)
+        yield d
+        d = dict(c)
+        d.update(N=1)
+        yield d
     if c['kind'] == 'exact_run':
         simple = [0.0, 1.0, 0.0, 0.0] if c['iterator'] == 'RK4' else [1.0, 0.0, 0.0, 0.0]
         d = dict(c)
@@ -907,6 +1127,8 @@ def search(ctx, quick, budget=1.0):
             cases += [gen_alias_case(rng, which, path) for _ in range(max(4, nstep // 4))]
         for path in ('solver', 'desolver'):
             cases += [gen_exact_run(rng, which, path) for _ in range(max(4, nstep // 4))]
+        for sub, k in (('repr', 3), ('kwargs', 1), ('reuse', 1), ('interleave', 1)):
+            cases += [gen_convention_case(rng, which, sub) for _ in range(max(2, nstep * k // 3))]
     nord = int((3 if quick else 25) * budget)
     for name in SYSTEMS:
         for which in ('Euler', 'RK4'):
@@ -933,6 +1155,8 @@ def search(ctx, quick, budget=1.0):
         ctx.count(hexcase(c), True)
         ctx.hist('kind', c['kind'])
         ctx.hist('iterator/path', c['iterator'] + '/' + c.get('path', 'direct'))
+        if c['kind'] == 'convention':
+            ctx.hist('convention', c['sub'] + ('/' + c['repr'] if c['sub'] == 'repr' else '') + '/' + c['path'])
         if c['kind'] == 'order':
             ctx.hist('system', c['system'])
             ctx.hist('order_step_size', 'divides the interval' if c.get('frac', 0.0) == 0 else 'does not divide (last step cut)')
@@ -957,8 +1181,10 @@ def report_hits(ctx, hits):
                           msg)
             continue
         site = 'kawin/solver/Iterators.py:' + ('RK4Iterator' if c['iterator'] == 'RK4' else 'ExplicitEulerIterator')
-        if c['kind'] == 'exact_run' or (c['kind'] == 'order' and c.get('path', 'direct') != 'direct'
-                                        and (c.get('frac', 0.0) > 0 or c['params'].get('tau', 1.0) != 1.0)):
+        if c['kind'] == 'convention' and c.get('path') != 'direct':
+            site = 'kawin/solver/Solver.py:DESolver (%s)' % c['iterator']
+        elif c['kind'] == 'exact_run' or (c['kind'] == 'order' and c.get('path', 'direct') != 'direct'
+                                          and (c.get('frac', 0.0) > 0 or c['params'].get('tau', 1.0) != 1.0)):
             site = 'kawin/solver/Solver.py:DESolver.solve (%s)' % c['iterator']
         if (clause, cls, site) in seen:
             continue
